@@ -410,6 +410,17 @@ def directed_programs(tier, r):
         combos = sorted(sel)
     for i, (slot, act) in enumerate(combos):
         out.append({'id': 'h%d' % i, 'src': HOSTILE_TMPL % {'slot': slot, 'action': act}, 'family': 'hostile-hook', 'label': '%s / %s' % (slot, act.split('\n')[0])})
+    # the attributes of function objects: read, written with every kind of value, deleted, indexed into - then the function is used
+    fdefs = {'plain': 'def f(a, b=1):\n    return a', 'kwonly-annotated': 'def f(a: int, *, k: str = 2) -> None:\n    return a', 'lambda': 'f = lambda a, b=1: a',
+             'closure': 'def mk():\n    c = 1\n    def f(a):\n        return a + c\n    return f\nf = mk()', 'method': 'class C:\n    def m(self, a=1):\n        return a\nf = C().m', 'generator': 'def f(a=1):\n    yield a'}
+    fattrs = ['__annotations__', '__kwdefaults__', '__defaults__', '__dict__', '__name__', '__qualname__', '__doc__', '__module__', '__code__', '__globals__', '__closure__', '__func__', '__self__']
+    facts = ['f.%s', 'f.%s["a"] = 1', 'f.%s[0]', 'del f.%s', 'f.%s.clear()', 'len(f.%s)'] + ['f.%s = ' + v for v in HOSTILE_VALUES]
+    fcombos = [(dn, a, act) for dn in fdefs for a in fattrs for act in facts]
+    if tier == 'quick':
+        fcombos = [c for i, c in enumerate(fcombos) if c[0] in ('plain', 'kwonly-annotated') or c[2] in facts[:6] or (i + len(c[1])) % 5 == 0]
+    for i, (dn, a, act) in enumerate(fcombos):
+        src = fdefs[dn] + '\ntry:\n    ' + (act % a) + '\n    print("acted")\nexcept BaseException:\n    print("exc")\ntry:\n    r = f(1)\n    r = f(a=2)\n    list(r) if r is not None and not isinstance(r, int) else None\n    print("called")\nexcept BaseException:\n    print("call-exc")\n'
+        out.append({'id': 'fa%d' % i, 'src': src, 'family': 'function-attributes', 'label': '%s / %s' % (act % a, dn)})
     for k, src in RECURSION_PROGRAMS.items():
         if tier == 'quick' and k.startswith('self-') and k not in ('self-list-repr', 'self-list-eq'):
             continue          # each of these aborts after growing a 1 GB stack (known finding): two of them in quick, all in thorough
@@ -548,7 +559,7 @@ def run(tier, rep):
         if g.get('panic') or g.get('crash') or g.get('harness_panic'):
             msg = str(g.get('panic') or g.get('harness_panic') or (re.search(r'fatal error: ([^\n]*)', g.get('log_tail', '')) or [None, 'abort'])[1])
             if dm:
-                rep.violation('C10|directed|%s|%s|panic:%s' % (dm['family'], dm['label'] if dm['family'] in ('recursion', 'nesting') else dm['label'].split(' = ')[0].split('(')[0], normmsg(msg)),
+                rep.violation('C10|directed|%s|%s|panic:%s' % (dm['family'], dm['label'] if dm['family'] in ('recursion', 'nesting') else (dm['label'].split(' / ')[0].split(' = ')[0] if dm['family'] == 'function-attributes' else dm['label'].split(' = ')[0].split('(')[0]), normmsg(msg)),
                               {'case': {'id': p['id'], 'src': p['src']}, 'family': dm['family'], 'label': dm['label'], 'got': {k: common.short(v, 1500) for k, v in g.items()}})
             elif rm:
                 rep.violation('C10|reentrant|op=%s|panic:%s' % (rm['reop'], normmsg(msg)), {'case': p, 'operation': rm['reop'], 'callback_action': rm['react'], 'trigger_call': rm['trig'], 'burst': rm['burst'],
